@@ -51,6 +51,7 @@ type verInfo struct {
 	cond     string // ite: condition selecting parent
 	storeRef string // store: reference written
 	storeVal string // store: value written
+	bound    string // havoc: allocation counter after the havoc (every reference in the new version is below it)
 }
 
 type VC struct {
@@ -88,6 +89,17 @@ type VC struct {
 	usedContracts   map[string]bool
 	callOrd         map[string]int
 	qn              int
+	qvars           [][2]string // bound variables in scope (name, sort)
+	qrepl           [][2]string // textual rewrites applied to terms built under the current quantifier
+	qcur            string      // innermost bound variable whose first slice index is being looked for
+	qoff            string      // offset of the first slice indexed by qcur
+	specDefs        map[*ssa.Function]*specDef
+	specTrack       []*specTracker
+	quantDefs       map[string]bool
+	quantScanned    int
+	entryAx         map[string]bool
+	frameAxQ        map[string]bool
+	clauseNext      string // allocation counter of the state a contract clause is being evaluated in
 	frame           struct {
 		active bool
 		strict bool // declared by the contract (modifies ...): copy/append/map writes are checked too and loops keep pre-existing objects
@@ -136,12 +148,51 @@ func (vc *VC) fresh(sort, hint string) string {
 
 // def names a term (keeps the formula a DAG). Short terms are returned as is.
 func (vc *VC) def(sort, hint, term string) string {
-	if vc.quant > 0 || len(term) < 24 || !strings.HasPrefix(term, "(") {
+	if len(term) < 24 || !strings.HasPrefix(term, "(") {
 		return term
+	}
+	if vc.quant > 0 {
+		// under a quantifier a definition is a function of the bound variables it mentions
+		for _, r := range vc.qrepl {
+			term = strings.ReplaceAll(term, r[0], r[1])
+		}
+		if len(term) < 48 {
+			return term
+		}
+		var ps, as []string
+		for _, qv := range vc.qvars {
+			if mentions(term, qv[0]) {
+				ps = append(ps, "("+qv[0]+" "+qv[1]+")")
+				as = append(as, qv[0])
+			}
+		}
+		n := vc.name(hint)
+		if len(ps) == 0 {
+			vc.emit(fmt.Sprintf("(define-fun %s () %s %s)", n, sort, term))
+			return n
+		}
+		vc.emit(fmt.Sprintf("(define-fun %s (%s) %s %s)", n, strings.Join(ps, " "), sort, term))
+		return "(" + n + " " + strings.Join(as, " ") + ")"
 	}
 	n := vc.name(hint)
 	vc.emit(fmt.Sprintf("(define-fun %s () %s %s)", n, sort, term))
 	return n
+}
+
+// mentions: does term contain the identifier name (as a whole token)?
+func mentions(term, name string) bool {
+	for from := 0; ; {
+		i := strings.Index(term[from:], name)
+		if i < 0 {
+			return false
+		}
+		i += from
+		end := i + len(name)
+		if (i == 0 || !isIdentChar(term[i-1])) && (end == len(term) || !isIdentChar(term[end])) {
+			return true
+		}
+		from = i + 1
+	}
 }
 
 func (vc *VC) note(s string) {
@@ -265,9 +316,9 @@ func (vc *VC) havocHeap(st *State, key string, limit string, exempt []string) {
 	n := vc.name("Hh_" + vc.sorts().shortName("heap:"+key))
 	vc.emit(fmt.Sprintf("(declare-const %s %s)", n, vc.heapSort[key]))
 	if limit != "" {
-		vc.ver[n] = &verInfo{kind: 3, parent: old, limit: limit, exempt: exempt, framed: true}
+		vc.ver[n] = &verInfo{kind: 3, parent: old, limit: limit, exempt: exempt, framed: true, bound: st.next}
 	} else {
-		vc.ver[n] = &verInfo{kind: 0}
+		vc.ver[n] = &verInfo{kind: 0, bound: st.next}
 	}
 	st.heap[key] = n
 }
@@ -291,6 +342,12 @@ func (vc *VC) bumpNext(st *State) {
 func (vc *VC) frameFacts(ver, ref string) {
 	info, ok := vc.ver[ver]
 	if !ok || !info.framed {
+		return
+	}
+	if vc.quant > 0 {
+		// no ground instance can be assumed under a quantifier: state the frame
+		// conditions of the versions below ver in quantified form, once
+		vc.frameAxiomsQ(ver, 0)
 		return
 	}
 	mk := ver + "|" + ref
@@ -322,9 +379,43 @@ func (vc *VC) frameFacts(ver, ref string) {
 	}
 }
 
+func (vc *VC) frameAxiomsQ(ver string, depth int) {
+	info, ok := vc.ver[ver]
+	if !ok || !info.framed || depth > 60 {
+		return
+	}
+	if vc.frameAxQ == nil {
+		vc.frameAxQ = map[string]bool{}
+	}
+	if vc.frameAxQ[ver] {
+		return
+	}
+	vc.frameAxQ[ver] = true
+	switch info.kind {
+	case 1:
+		vc.frameAxiomsQ(info.parent, depth+1)
+	case 2:
+		vc.frameAxiomsQ(info.parent, depth+1)
+		vc.frameAxiomsQ(info.other, depth+1)
+	case 3:
+		conds := []string{fmt.Sprintf("(bvult g_fr %s)", info.limit)}
+		for _, e := range info.exempt {
+			conds = append(conds, fmt.Sprintf("(not (= g_fr %s))", e))
+		}
+		vc.emit(fmt.Sprintf("(assert (forall ((g_fr (_ BitVec 64))) (! (=> %s (= (select %s g_fr) (select %s g_fr))) :pattern ((select %s g_fr)))))", sAnd(conds...), ver, info.parent, ver))
+		vc.frameAxiomsQ(info.parent, depth+1)
+	case 4:
+		for _, e := range info.exempt {
+			vc.emit(fmt.Sprintf("(assert (= (select %s %s) (select %s %s)))", ver, e, info.parent, e))
+		}
+		vc.frameAxiomsQ(info.parent, depth+1)
+	}
+}
+
 // havocProtect forgets every heap array known so far except the cells of the
 // protected objects (contract clause `preserves`).
 func (vc *VC) havocProtect(st *State, protect []string, keepPrefixes []string) {
+	vc.bumpNext(st)
 	for _, key := range sortedKeys(vc.heapSort) {
 		keep := false
 		for _, p := range keepPrefixes {
@@ -338,17 +429,141 @@ func (vc *VC) havocProtect(st *State, protect []string, keepPrefixes []string) {
 		old := vc.heapVer(st, key)
 		n := vc.name("Hp_" + vc.sorts().shortName("heap:"+key))
 		vc.emit(fmt.Sprintf("(declare-const %s %s)", n, vc.heapSort[key]))
-		vc.ver[n] = &verInfo{kind: 4, parent: old, exempt: protect, framed: true}
+		vc.ver[n] = &verInfo{kind: 4, parent: old, exempt: protect, framed: true, bound: st.next}
 		st.heap[key] = n
 	}
-	vc.bumpNext(st)
+}
+
+// refTerms lists the reference-valued parts of a value term of type t
+// (pointers, backing arrays of slices, interface payloads; through structs).
+func (vc *VC) refTerms(t types.Type, term string, depth int) []string {
+	if depth > 4 {
+		return nil
+	}
+	switch u := t.Underlying().(type) {
+	case *types.Pointer, *types.Map, *types.Chan:
+		return []string{term}
+	case *types.Slice:
+		return []string{app("g_sarr", term)}
+	case *types.Interface:
+		return []string{app("g_iref", term)}
+	case *types.Struct:
+		var res []string
+		for i := 0; i < u.NumFields(); i++ {
+			res = append(res, vc.refTerms(u.Field(i).Type(), vc.sorts().selField(t, i, term), depth+1)...)
+		}
+		return res
+	}
+	return nil
+}
+
+// wfTerms lists the well-formedness facts of the slice-valued parts of a value
+// term of type t (through structs).
+func (vc *VC) wfTerms(t types.Type, term string, depth int) []string {
+	if depth > 4 {
+		return nil
+	}
+	switch u := t.Underlying().(type) {
+	case *types.Slice:
+		return []string{fmt.Sprintf("(and (bvsle (_ bv0 64) (g_slen %s)) (bvsle (g_slen %s) (g_scap %s)) (bvsle (_ bv0 64) (g_soff %s)) (bvsle (g_soff %s) #x0000ffffffffffff) (bvsle (g_scap %s) #x0000ffffffffffff) (=> (= (g_sarr %s) (_ bv0 64)) (= (g_scap %s) (_ bv0 64))))",
+			term, term, term, term, term, term, term, term)}
+	case *types.Interface:
+		return []string{fmt.Sprintf("(=> (= (g_itag %s) (_ bv0 32)) (= (g_iref %s) (_ bv0 64)))", term, term)}
+	case *types.Struct:
+		var res []string
+		for i := 0; i < u.NumFields(); i++ {
+			res = append(res, vc.wfTerms(u.Field(i).Type(), vc.sorts().selField(t, i, term), depth+1)...)
+		}
+		return res
+	}
+	return nil
+}
+
+// typingAxioms: the typing facts that every read of a heap cell gets
+// (references denote existing objects; slices are well-formed) are stated per
+// read. Under a quantifier there is no such read, so they are stated in
+// quantified form for the unconstrained heap versions (the entry heap and the
+// versions introduced by loop cuts and calls) that version ver is built from:
+// once per version, when a quantified clause first reads it. For the entry heap
+// the references are below the entry allocation counter.
+func (vc *VC) typingAxioms(key, ver string, depth int) {
+	if depth > 60 {
+		return
+	}
+	if vc.entryAx == nil {
+		vc.entryAx = map[string]bool{}
+	}
+	if vc.entryAx[ver] {
+		return
+	}
+	vc.entryAx[ver] = true
+	info, ok := vc.ver[ver]
+	if !ok {
+		return
+	}
+	switch info.kind {
+	case 1:
+		vc.typingAxioms(key, info.parent, depth+1)
+		return
+	case 2:
+		vc.typingAxioms(key, info.parent, depth+1)
+		vc.typingAxioms(key, info.other, depth+1)
+		return
+	case 3, 4:
+		vc.typingAxioms(key, info.parent, depth+1)
+	}
+	t := vc.heapType[key]
+	if strings.HasPrefix(key, "Mc|") {
+		// number of keys of a map
+		cell := fmt.Sprintf("(select %s g_ar)", ver)
+		ax := fmt.Sprintf("(assert (forall ((g_ar (_ BitVec 64))) (! (and (bvsle (_ bv0 64) %s) (bvsle %s #x0000ffffffffffff)) :pattern (%s))))", cell, cell, cell)
+		if info.kind == 0 && strings.HasPrefix(ver, "g_H0_") {
+			vc.preamble = append(vc.preamble, ax)
+		} else {
+			vc.emit(ax)
+		}
+		return
+	}
+	if t == nil || !(strings.HasPrefix(key, "F|") || strings.HasPrefix(key, "E|") || strings.HasPrefix(key, "B|")) {
+		return
+	}
+	var cell, bind string
+	if strings.HasPrefix(key, "E|") {
+		cell = fmt.Sprintf("(select (select %s g_ar) g_ai)", ver)
+		bind = "((g_ar (_ BitVec 64)) (g_ai (_ BitVec 64)))"
+	} else {
+		cell = fmt.Sprintf("(select %s g_ar)", ver)
+		bind = "((g_ar (_ BitVec 64)))"
+	}
+	facts := vc.wfTerms(t, cell, 0)
+	if strings.HasPrefix(ver, "g_H0_") {
+		for _, r := range vc.refTerms(t, cell, 0) {
+			facts = append(facts, fmt.Sprintf("(bvult %s g_next0)", r))
+		}
+	} else if info.bound != "" {
+		for _, r := range vc.refTerms(t, cell, 0) {
+			facts = append(facts, fmt.Sprintf("(bvult %s %s)", r, info.bound))
+		}
+	}
+	if len(facts) == 0 {
+		return
+	}
+	ax := fmt.Sprintf("(assert (forall %s (! %s :pattern (%s))))", bind, sAnd(facts...), cell)
+	if info.kind == 0 && strings.HasPrefix(ver, "g_H0_") {
+		vc.preamble = append(vc.preamble, ax)
+	} else {
+		vc.emit(ax)
+	}
 }
 
 func (vc *VC) readCell(st *State, key, ref string) string {
+	for _, t := range vc.specTrack {
+		t.keys[key] = true
+	}
 	v := vc.heapVer(st, key)
 	vc.frameFacts(v, ref)
 	if vc.quant > 0 {
-		return fmt.Sprintf("(select %s %s)", v, ref)
+		vc.typingAxioms(key, v, 0)
 	}
 	return vc.readVer(v, ref, vc.heapCellSort(key), 0)
 }
@@ -557,10 +772,16 @@ func (vc *VC) script(o *Obligation, produceModels bool) string {
 	b.WriteString("(define-fun g_nilslice () g_Slice (g_mkslice (_ bv0 64) (_ bv0 64) (_ bv0 64) (_ bv0 64)))\n")
 	b.WriteString("(define-fun g_niliface () g_Iface (g_mkiface (_ bv0 32) (_ bv0 64)))\n")
 	for _, d := range vc.eng.globalDecls {
+		if o.Weak && strings.HasPrefix(d, "(assert (forall") {
+			continue
+		}
 		b.WriteString(d)
 		b.WriteString("\n")
 	}
 	for _, d := range vc.preamble {
+		if o.Weak && strings.HasPrefix(d, "(assert (forall") {
+			continue
+		}
 		b.WriteString(d)
 		b.WriteString("\n")
 	}
